@@ -10,6 +10,7 @@ seed, prop = sys.argv[1], sys.argv[2]
 tier = sys.argv[3] if len(sys.argv) > 3 else "quick"
 SID = os.environ.get("SCRATCH_ID", "")      # a second pair of scratch directories can work in parallel
 WT, H2 = "/tmp/wt-verify" + SID, "/tmp/harness2" + SID
+os.environ["COOKLANG_REPO"] = WT      # the recorder compares Converter::default() with THIS tree's units.toml
 if not os.path.isdir(WT):
     subprocess.run(["git", "-C", "/repo", "worktree", "add", "--detach", WT, "HEAD", "-f"], check=True, capture_output=True)
 subprocess.run(["git", "-C", WT, "checkout", "-q", "--detach", subprocess.run(["git", "-C", "/repo", "rev-parse", "HEAD"], capture_output=True, text=True).stdout.strip()])
